@@ -1282,7 +1282,10 @@ impl<'a, 'b, W: Write> Serializer for &'a mut YamlSerializer<'b, W> {
                 let mut cap = StrCapture::default();
                 value.serialize(&mut cap)?;
                 let s = cap.finish()?;
-                self.pending_str_style = Some(StrStyle::Literal);
+                // Block scalars cannot be written inside a flow collection: quote there.
+                if self.in_flow == 0 {
+                    self.pending_str_style = Some(StrStyle::Literal);
+                }
                 return self.serialize_str(&s);
             }
             NAME_FOLD_STR => {
@@ -1290,7 +1293,7 @@ impl<'a, 'b, W: Write> Serializer for &'a mut YamlSerializer<'b, W> {
                 value.serialize(&mut cap)?;
                 let s = cap.finish()?;
                 let is_multiline = s.contains('\n');
-                if !is_multiline && s.len() < self.min_fold_chars {
+                if (!is_multiline && s.len() < self.min_fold_chars) || self.in_flow > 0 {
                     return self.serialize_str(&s);
                 }
                 self.pending_str_style = Some(StrStyle::Folded);
